@@ -1,5 +1,5 @@
 NAME = 'K-undo'
-PROPERTIES = ['C14', 'C02']
+PROPERTIES = ['C14', 'C02', 'C15']
 ENGINE = 'verus'
 CLASS = 'U'
 DOC = ('Database::{rollback_to_savepoint, undo_change} (storage/database/core.rs): ROLLBACK TO SAVEPOINT applies the INVERSE of every change recorded '
